@@ -24,11 +24,12 @@ from annet.annlib.rbparser.ordering import compile_ordering_text
 from annet.rulebook.patching import compile_patching_text
 from annet.rulebook.deploying import compile_deploying_text
 
-# Device.family_exits, per vendor
+# Device.v_exits, per vendor: registry exit word + the words the formatter family emits
 EXITS = {
     "huawei": ["quit", "end-filter", "end-list", "endif"], "h3c": ["quit", "end-filter", "end-list", "endif"],
+    "optixtrans": ["quit"],
     "cisco": ["exit", "exit-address-family"], "iosxr": ["exit", "end-set", "endif", "end-policy"],
-    "nexus": ["exit"], "arista": ["exit"], "aruba": ["exit"], "b4com": ["exit"],
+    "nexus": ["exit"], "arista": ["exit"], "aruba": ["exit"], "b4com": ["exit"], "ribbon": ["exit"],
 }
 
 
@@ -45,31 +46,35 @@ def dev_cmd(vendor, rules, cmd, f):
     if cmd in EXITS.get(vendor, ()):
         return f
     m, crs = _match_row_to_rules(cmd, rules)
-    ms = [_match_row_to_rules(r, rules)[0] for r, _ in f]
     if m:
         s = _slot(m)
-        hit = [bool(x) and _slot(x) == s for x in ms]
-        if not any(hit):
+        idx = None
+        for i, (r, _) in enumerate(f):                      # Device.find (in_slot rs s)
+            x = _match_row_to_rules(r, rules)[0]
+            if x and _slot(x) == s:
+                idx = i
+                break
+        if idx is None:
             return f + [[cmd, []]]
-        same = any(h and r == cmd for h, (r, _) in zip(hit, f))
-        if _dl(m) == "ordered_diff" and not same:
-            return [e for h, e in zip(hit, f) if not h] + [[cmd, []]]
-        out = []
-        for h, (r, sub) in zip(hit, f):
-            if not h:
-                out.append([r, sub])
-            elif r == cmd:
-                keep = []
-                for (cr, csub) in sub:
-                    cm, _ = _match_row_to_rules(cr, crs)
-                    if cm and _dl(cm) == "rewrite_diff":
-                        continue
-                    keep.append([cr, csub])
-                out.append([r, keep])
-            else:
-                out.append([cmd, []])
-        return out
-    return [e for x, e in zip(ms, f) if not (x and x["attrs"]["reverse"].format(*x["key"]) == cmd)]
+        r, sub = f[idx]
+        if r == cmd:                                        # enter: children of %rewrite rules are dropped
+            keep = []
+            for (cr, csub) in sub:
+                cm, _ = _match_row_to_rules(cr, crs)
+                if cm and _dl(cm) == "rewrite_diff":
+                    continue
+                keep.append([cr, csub])
+            return f[:idx] + [[cmd, keep]] + f[idx + 1:]
+        if _dl(m) == "ordered_diff":
+            return f[:idx] + f[idx + 1:] + [[cmd, []]]
+        return f[:idx] + [[cmd, []]] + f[idx + 1:]
+    out = []
+    for (r, sub) in f:
+        x = _match_row_to_rules(r, rules)[0]
+        if x and x["attrs"]["reverse"].format(*x["key"]) == cmd:
+            continue
+        out.append([r, sub])
+    return out
 
 
 def dev_path(vendor, rules, path, f):
